@@ -11,7 +11,7 @@ from ..paths import PEvent, SymPath, norm_less, show
 from ..report import Report
 from .breaker_table import CB, check_method, is_clock
 from .common import SELF, attr, owned_by
-from .windows import WindowSpec, loop_idioms, prunes, unverified_loops
+from .windows import WindowSpec, arg_of, loop_idioms, param_roles, prunes, unverified_loops
 
 F = attr(SELF, "_failures")
 CF = attr(SELF, "_class_failures")
@@ -33,7 +33,10 @@ def window_shape(rep: Report, rid: str, prog: Program, qual: str, bucket: Any, w
         if bucket >= len(pos):
             raise AnalysisError(f"{qual}: expected a container parameter at position {bucket}")
         bucket = ("param", pos[bucket])
-    NOW = ("param", pos[now_pos])
+    roles = param_roles(fi)
+    NOW = ("param", roles["now"]) if "now" in roles else ("param", pos[now_pos])
+    if isinstance(bucket, tuple) and bucket[0] == "param" and "bucket" in roles:
+        bucket = ("param", roles["bucket"])
     paths = engine(prog).paths(fi)
     first = ("sub", bucket, ("const", 0))
     loops = pops = 0
@@ -84,11 +87,13 @@ def check_note_failure(rep: Report, prog: Program) -> None:
     fi = prog.func(f"{CB}._note_failure")
     rep.analysed(fi.qual)
     paths = engine(prog).paths(fi)
-    pos = fi.positional_params()
-    if len(pos) != 3:
-        raise AnalysisError(f"{fi.qual}: expected (self, klass, now)")
-    KL, NOW = ("param", pos[1]), ("param", pos[2])  # parameter names are free
-    spec = WindowSpec("CircuitBreaker._prune", lambda e: e.args[0] if e.args else None, lambda e: e.args[1] if len(e.args) > 1 else None, attr(SELF, "_window_s"))
+    roles = param_roles(fi)
+    if not {"klass", "now"} <= set(roles):
+        raise AnalysisError(f"{fi.qual}: expected a failure-class parameter and a time parameter")
+    KL, NOW = ("param", roles["klass"]), ("param", roles["now"])  # parameter names and order are free
+    pr = prog.funcs.get(f"{CB}._prune")
+    proles = param_roles(pr) if pr is not None else {}
+    spec = WindowSpec("CircuitBreaker._prune", lambda e: arg_of(e, proles.get("bucket")), lambda e: arg_of(e, proles.get("now")), attr(SELF, "_window_s"))
     top = engine(prog).cfgs.get(fi)
     idioms = loop_idioms(paths, top, spec.window)
     for bad in unverified_loops(idioms):
@@ -113,8 +118,11 @@ def check_note_failure(rep: Report, prog: Program) -> None:
             problems.append("global window: expected exactly one prune of self._failures at `now` and one self._failures.append(now)")
         rest = [e for e in imp if e not in pr_events and e not in gap]
         cpr = [x for x in allpr if x not in gpr]
-        has_threshold = any(a == ("cmp", "is", TH, ("const", None)) and not pol for a, pol, _ in p.conds)
-        no_threshold = any(a == ("cmp", "is", TH, ("const", None)) and pol for a, pol, _ in p.conds)
+        # presence of a class threshold: `thresholds.get(klass) is None` or `klass in thresholds` (values are validated >= 1)
+        CT = attr(SELF, "_class_thresholds")
+        THS = (TH, ("sub", CT, KL))
+        has_threshold = any((a == ("cmp", "is", TH, ("const", None)) and not pol) or (a == ("cmp", "in", KL, CT) and pol) for a, pol, _ in p.conds)
+        no_threshold = any((a == ("cmp", "is", TH, ("const", None)) and pol) or (a == ("cmp", "in", KL, CT) and not pol) for a, pol, _ in p.conds)
         if not (has_threshold or no_threshold):
             problems.append("class threshold presence is not tested (`_class_thresholds.get(klass) is None`)")
         if has_threshold:
@@ -127,13 +135,13 @@ def check_note_failure(rep: Report, prog: Program) -> None:
                     problems.append("class window: prune/append use different containers or a different `now`")
                 got = ("pure", ".get", (CF, KL), ())
                 fresh = B[0] == "pure" and str(B[1]).startswith("deque") or (B[0] == "pure" and "deque" in str(B[1]))
-                if B != got:
+                if B not in (got, ("sub", CF, KL)):
                     stored = [e for e in p.stores() if e.loc == ("sub", CF, KL) and e.value == B]
                     if not stored:
                         problems.append("class window: a fresh bucket is not stored back into _class_failures[klass]")
                 # threshold literal
                 lenB = ("pure", "len", (B,), ())
-                lit = [(a, pol) for a, pol, _ in p.conds if a == ("cmp", "<", lenB, TH)]
+                lit = [(a, pol) for a, pol, _ in p.conds if a in [("cmp", "<", lenB, t) for t in THS]]
                 if not lit:
                     problems.append("class window: `len(bucket) >= threshold` is not tested")
                 elif lit[0][1] is False:
@@ -215,8 +223,10 @@ def check_clock(rep: Report, prog: Program) -> None:
             else:
                 now = clocks[0].result
                 for e in p.events:
-                    if e.kind == "call" and e.is_repo("CircuitBreaker._note_failure") and (len(e.args) < 2 or e.args[1] != now or e.args[0] != KL):
-                        bad = "_note_failure is not passed (klass, now)"
+                    if e.kind == "call" and e.is_repo("CircuitBreaker._note_failure"):
+                        nroles = param_roles(next(t.func for t in e.targets if t.func is not None))
+                        if arg_of(e, nroles.get("now")) != now or arg_of(e, nroles.get("klass")) != ("param", "klass"):
+                            bad = "_note_failure is not passed (klass, now)"
                     if e.kind == "store" and e.loc == attr(SELF, "_opened_at") and e.value not in (now, ("const", None)):
                         bad = f"_opened_at := {show(e.value)}"
             if bad:
